@@ -91,10 +91,10 @@ func c24NotPaths(fd *ast.FuncDecl) (paths []string, why string) {
 						why = "return with other than one result"
 						continue
 					}
-					if _, ok := isCall(x.Results[0], "atom"); ok {
+					if _, ok := isCall(x.Results[0], c24Names.Atom); ok {
 						paths = append(paths, describe(c, fmt.Sprintf("atom@%d", c.k)))
-					} else if call, ok := isCall(x.Results[0], "not"); ok && len(call.Args) == 1 {
-						if _, ok := isCall(call.Args[0], "atom"); ok {
+					} else if call, ok := isCall(x.Results[0], c24Names.Ctor["NotExpr"]); ok && len(call.Args) == 1 {
+						if _, ok := isCall(call.Args[0], c24Names.Atom); ok {
 							paths = append(paths, describe(c, fmt.Sprintf("not(atom)@%d", c.k)))
 						} else {
 							why = "not(...) of something other than p.atom()"
